@@ -409,6 +409,12 @@ def _shares(ck):
                 fs = [x.get('f') for sd in (n['l'], n['r']) for x in walk(sd) if x.get('k') == 'Field' and 'KnownClasses' in (x.get('adt') or '')]
                 if fs:
                     cmp_sites.append((fn, n, fs))
+    # every <addaction name=..> names one declared object only if generated names are never handed out twice (C10 R10.3)
+    import rules.c10 as c10
+    ck.rule('R11.10', 'an action or menu is added once under a name no other object carries (shared with C10)')
+    s10 = _core.Shared(ck, 'R11.10', lambda r, k: r == 'R10.3', 'C10:', ' [two menus of one name: <addaction> names it twice and one declared menu is never added]')
+    c10.run(s10)
+    ck.floor('R11.10', s10.count, 3, 'shared C10 R10.3 obligations')
     ck.explanation += (' R11.9 the QObject-derived well-known classes (a frozen, reviewed list of KnownClasses fields; value classes are exempt) are tested with '
                        'is_derived_from only, never by ==: an object of a derived class, or of a component rooted at one, is treated as its base. The list fails closed when '
                        'a new field is tested by derivation or a listed field disappears.')
